@@ -48,7 +48,7 @@ CHECKS = {
    "DESIGN.md §4 C07"),
  "C08": ("exploration",
    "property-based testing generic over the element type: bulk-vs-serde byte identity, cross-decoding round trips on raw bit patterns, streaming-vs-buffered differential, exhaustive (type x query length x misalignment) grid through the borrowing route with pointer-provenance checks; coverage-guided libFuzzer+ASan twin of the same check (c08_slices) in thorough",
-   "For 16 element types and slices built from raw generated bits, the bulk body must equal the serde body byte-for-byte (len>0), each decoder must read the other encoder's output bit-for-bit (every len incl. 0), the streaming writers must frame identically to the builders, the aligned form must yield the same bits through a with_typed_slice_ref route at every (query length 0..64, buffer misalignment 0..7) with aligned payloads borrowed and never a misaligned borrow, and wrong element types/formats must be rejected.",
+   "For 16 element types and slices built from raw generated bits, the bulk body must equal the serde body byte-for-byte (len>0), each decoder must read the other encoder's output bit-for-bit (every len incl. 0), the streaming writers must frame identically to the builders, the aligned form must yield the same bits through a with_typed_slice_ref route at every (query length 0..64, buffer misalignment 0..7) with aligned payloads borrowed and never a misaligned borrow, wrong element types/formats must be rejected (message-level decoders and both dispatch paths of both slice routes, including correct arrays under a wrong format label), and the streaming writers frame a BEVE body whatever body format the caller's header carried.",
    "u128/i128/half floats only on bulk-only clauses; borrowing observed via the address handed to the route closure.",
    "DESIGN.md §4 C08"),
  "C10": ("fault_enumeration",
@@ -98,7 +98,7 @@ CHECKS = {
    "DESIGN.md §4 C18"),
  "C19": ("fault_enumeration",
    "enumerated per-attempt outcome sequences (exhaustive in thorough, all sequences of length <=2 plus random in quick) against a scripted fake node switched from the verif-hooks attempt probe; attempt-history oracle",
-   "For every generated sequence of per-attempt outcomes over the seven-outcome alphabet and max_attempts 1..3, on Fleet and AsyncFleet: attempts (counted by the probe, refused ones included) never exceed max_attempts, no attempt follows a reply, the call reports that reply (value or application error) or an error when none arrived, and once the node is healthy again a call succeeds by the second try at the latest; broadcast addresses exactly the nodes carrying all requested tags (all 8 tag subsets x 4 assignments).",
+   "For every generated sequence of per-attempt outcomes over the seven-outcome alphabet and max_attempts 1..3, on Fleet and AsyncFleet: attempts (counted by the probe, refused ones included) never exceed max_attempts, no attempt follows a reply, the call reports that reply (value or application error) or an error when none arrived, and once the node is healthy again a call succeeds by the second try at the latest; a retry within a call reaches the node whenever the node is up (it reconnects); broadcast addresses exactly the nodes carrying all requested tags (all 8 tag subsets x 4 assignments x listing orders, with repeats).",
    "Attempt counting and node switching rely on the verif-hooks probe at the start of each attempt; malformed-reply retry not asserted. A connection that went silent stays silent (hung) while new connections are answered. A failing case is re-run once with a 20x longer call timeout and reported only if it fails again (load-dependent late replies).",
    "DESIGN.md §4 C19"),
 }
